@@ -36,10 +36,13 @@ class Prop(PropBase):
                     cs.append(Case("T %d ; %s" % (bits, " ; ".join(seq)), sweep="mode-sequences", nontrivial=n >= 2,
                                    cfgs=[cfgs[k % 6]]))
                     k += 1
+        shc = ["%d %d %d %d 7 4" % (wv, e, r, z) for wv in range(3) for e in range(3) for r in range(6) for z in range(4)]
+        for line, cf in tg.short_histories_b(2 if tier == "quick" else 3, shc):
+            cs.append(Case(line, sweep="short-histories-b", cfgs=cf))
         n = 1500 if tier == "quick" else 30000
         for i in range(n):
             nops = rng.choice([2, 3, 5, 8, 13, 21, 34]) if tier == "quick" else rng.choice([3, 8, 21, 60, 150])
-            line = tg.history(rng, nops, sized=rng.random() < 0.7, ops_weights=MODE_WEIGHTS)
+            line = tg.history(rng, nops, sized=rng.random() < 0.7, ops_weights=MODE_WEIGHTS, inputs=(i % 3 == 0))
             nm = sum(line.count(" %s" % o) for o in ("hc", "sc", "me", "md", "nb", "ab", "ti"))
             cs.append(Case(line, tag="history", nontrivial=nm >= 2, cfgs=tg.configs(rng, 2)))
         return cs
